@@ -122,6 +122,8 @@ impl Known {
 
 pub struct Env {
     pub dir: String,
+    /// where evidence and replay files are written (VERIF_OUT, default = dir)
+    pub out_dir: String,
     pub seed: u64,
     pub workers: usize,
     pub runs_override: Option<u64>,
@@ -137,12 +139,12 @@ impl Env {
 }
 
 pub fn stalled_exit(env: &Env, check: &dyn Check, scn_json: &str, secs: u64) -> ! {
-    let path = format!("{}/replays/{}-hang-{:016x}.json", env.dir, check.id(), {
+    let path = format!("{}/replays/{}-hang-{:016x}.json", env.out_dir, check.id(), {
         let mut h = crate::prng::Fnv::default();
         h.bytes(scn_json.as_bytes());
         h.0
     });
-    let _ = std::fs::create_dir_all(format!("{}/replays", env.dir));
+    let _ = std::fs::create_dir_all(format!("{}/replays", env.out_dir));
     let _ = std::fs::write(&path, scn_json);
     env.say(&format!(
         "VIOLATION property={} replay={} (watchdog: one run made no progress for {secs}s of real time: the planner spins without touching any seam)",
@@ -223,8 +225,8 @@ pub fn write_replay(env: &Env, scn: &Scenario, sig: &str, event_hash: u64) -> St
     let mut h = crate::prng::Fnv::default();
     h.bytes(sig.as_bytes());
     h.u64(s.hash());
-    let path = format!("{}/replays/{}-{:012x}.json", env.dir, scn.property, h.0 & 0xffff_ffff_ffff);
-    let _ = std::fs::create_dir_all(format!("{}/replays", env.dir));
+    let path = format!("{}/replays/{}-{:012x}.json", env.out_dir, scn.property, h.0 & 0xffff_ffff_ffff);
+    let _ = std::fs::create_dir_all(format!("{}/replays", env.out_dir));
     std::fs::write(&path, js).expect("write replay");
     path
 }
@@ -369,8 +371,8 @@ pub fn run_check(env: &Arc<Env>, check: Arc<dyn Check>, tier: Tier) -> i32 {
         "wall_s": wall,
         "violations": n_viol,
     });
-    let _ = std::fs::create_dir_all(format!("{}/evidence", env.dir));
-    std::fs::write(format!("{}/evidence/{}.json", env.dir, check.id()), serde_json::to_string_pretty(&ev).unwrap())
+    let _ = std::fs::create_dir_all(format!("{}/evidence", env.out_dir));
+    std::fs::write(format!("{}/evidence/{}.json", env.out_dir, check.id()), serde_json::to_string_pretty(&ev).unwrap())
         .expect("write evidence");
     env.say(&format!(
         "[{}] scenarios={} planner_runs={} nontrivial={} traces={} violations={} digest={:016x} wall={:.1}s{}",
@@ -389,6 +391,16 @@ pub fn run_check(env: &Arc<Env>, check: Arc<dyn Check>, tier: Tier) -> i32 {
 
 /// Re-executes a replay file. Exit 1 + VIOLATION when it reproduces exactly, 2 otherwise.
 pub fn run_replay(env: &Arc<Env>, check: Arc<dyn Check>, scn: &Scenario, path: &str) -> i32 {
+    // watchdog: a replay of a hang must itself be declared a hang
+    {
+        let env = env.clone();
+        let (prop, path) = (scn.property.clone(), path.to_string());
+        std::thread::spawn(move || {
+            std::thread::sleep(std::time::Duration::from_secs(130));
+            env.say(&format!("VIOLATION property={prop} replay={path} (watchdog: the replayed run made no progress for 130s of real time)"));
+            std::process::exit(1);
+        });
+    }
     let rep = check.evaluate(scn);
     let Some(exp) = &scn.expect else {
         env.say("replay file has no `expect` block; result:");
